@@ -257,6 +257,96 @@ fn one_case(run: &Run, case: u64) {
     }
 }
 
+/// Successive restores into one destination. Version A holds symlinks to the sentinels; in
+/// version B they have become directories (with children named like the sentinels' children)
+/// or regular files. B restored with `overwrite` over a restore of A meets those links in the
+/// destination: they came from the source, and writing through them leaves the destination.
+fn one_successive(run: &Run, case: u64) {
+    let mut rng = Rng::for_case(run.seed, case, 181);
+    let sb = sandbox("c16s");
+    let spec_a = gen_case_tree(&mut rng, &sb);
+    let links: Vec<String> = spec_a.iter().filter(|(_, n)| n.kind == Kind::Symlink).map(|(p, _)| p.clone()).collect();
+    if links.is_empty() {
+        return;
+    }
+    let mut spec_b = spec_a.clone();
+    let mut became_dir = Vec::new();
+    let file = |content: &str, s: i64| {
+        let mut n = Node::file(content.as_bytes().to_vec());
+        n.mtime_s = s;
+        n.mode = 0o640;
+        n
+    };
+    for l in &links {
+        if rng.chance(1, 2) {
+            let mut d = Node::dir();
+            d.mtime_s = 1_400_000_000;
+            d.mode = 0o750;
+            spec_b.insert(l.clone(), d.clone());
+            for name in ["f", "g", "new"] {
+                spec_b.insert(child_of(l, name), file(&format!("version B {name}"), 1_400_000_001));
+            }
+            let sub = child_of(l, "sub");
+            spec_b.insert(sub.clone(), d);
+            spec_b.insert(child_of(&sub, "h"), file("version B h", 1_400_000_002));
+            became_dir.push(l.clone());
+        } else {
+            spec_b.insert(l.clone(), file("version B content in place of a link", 1_400_000_003));
+        }
+    }
+    tree::sync_to_disk(None, &spec_a, &sb.src).expect("materialise");
+    let arch = sb.work.join("arch");
+    cs::create_archive(&arch);
+    let o = Opts { hunk: *rng.pick(&[2usize, 100_000]), block: 64, cap: 16 };
+    let replay = json!({"successive": true, "case": case});
+    run.eval();
+    if !cs::backup(cs::local(&arch), &sb.src, o, &[], None).clean() {
+        run.inconclusive("successive: backup of version A not clean");
+        return;
+    }
+    tree::sync_to_disk(Some(&spec_a), &spec_b, &sb.src).expect("sync");
+    if !cs::backup(cs::local(&arch), &sb.src, o, &[], None).clean() {
+        run.inconclusive("successive: backup of version B not clean");
+        return;
+    }
+    let outside0 = watch(&sb.outside);
+    // the second restore: everything, or only something below a link that became a directory
+    let mut selections: Vec<Option<String>> = vec![None];
+    if let Some(d) = became_dir.first() {
+        selections.push(Some(child_of(d, "sub")));
+    }
+    for (si, subtree) in selections.iter().enumerate() {
+        for (first, second) in [(0u32, 1u32), (1, 0)] {
+            let dest = sb.work.join(format!("sdest{si}{first}"));
+            let r1 = cs::restore(cs::local(&arch), Some(first), &dest, None, &[], false);
+            if !r1.clean() {
+                run.violation("restore-failed", format!("restore of b{first:04} into a fresh directory: {}", r1.describe()), replay.clone());
+                return;
+            }
+            let r2 = cs::restore(cs::local(&arch), Some(second), &dest, subtree.as_deref(), &[], true);
+            run.count("overwrite_restores_over_an_earlier_restore", 1);
+            if first == 0 {
+                run.count("overwrite_restores_meeting_links_left_by_the_earlier_version", 1);
+            }
+            if let Some(p) = &r2.panic {
+                run.violation(format!("restore-panic:{}", panic_site(p)), p.clone(), replay.clone());
+                return;
+            }
+            if let Some(d) = first_diff(&outside0, &watch(&sb.outside)) {
+                run.violation(
+                    "overwrite-restore-over-earlier-restore-modified-outside-destination",
+                    format!("restore b{first:04}, then restore b{second:04} (subtree {subtree:?}) with overwrite into the same directory changed sandbox/outside: {d}; links in b0000: {:?}",
+                        links.iter().take(4).map(|l| format!("{l} -> {}", spec_a[l].target)).collect::<Vec<_>>()),
+                    replay.clone(),
+                );
+                return;
+            }
+            crate::scratch::rm(&dest);
+        }
+    }
+    run.nontrivial(tree::tree_sig(&spec_b) ^ 0x5);
+}
+
 /// Versions stitched from an interrupted backup in which a directory was replaced by a symlink
 /// to a directory outside: entries of the older band lie "below" the link.
 fn stitched_case(run: &Run, case: u64) {
@@ -364,10 +454,14 @@ fn stitched_case(run: &Run, case: u64) {
 pub fn run(tier: Tier, replay: Option<Value>) -> i32 {
     let run = Run::new("C16", "exploration", tier, replay.clone());
     let stitched_replay = replay.as_ref().and_then(|r| r.get("stitched")).is_some();
-    if !stitched_replay {
+    let successive_replay = replay.as_ref().and_then(|r| r.get("successive")).is_some();
+    if !stitched_replay && !successive_replay {
         run.par_cases(tier.pick(600, 40000), super::threads(), |c| one_case(&run, c));
     }
-    if replay.is_none() || stitched_replay {
+    if replay.is_none() || successive_replay {
+        run.par_cases(tier.pick(300, 20000), super::threads(), |c| one_successive(&run, c));
+    }
+    if (replay.is_none() || stitched_replay) && !successive_replay {
         let n = tier.pick(20u64, 1500);
         if let Some(r) = &replay {
             stitched_case(&run, r["case"].as_u64().unwrap_or(0));
@@ -389,11 +483,11 @@ pub fn run(tier: Tier, replay: Option<Value>) -> i32 {
         }
     }
     let needs: &[(&str, u64)] = if replay.is_some() { &[] } else {
-        &[("restores_watched", 100), ("refusals_checked", 20), ("symlinks_in_sources", 100), ("stitched_versions_with_entries_below_a_symlink", 3)]
+        &[("restores_watched", 100), ("refusals_checked", 20), ("symlinks_in_sources", 100), ("stitched_versions_with_entries_below_a_symlink", 3), ("overwrite_restores_meeting_links_left_by_the_earlier_version", 50)]
     };
     run.finish(
-        "sandbox {outside/{file,dir/{f,g,sub/h}}, work/{src,arch,dest}}; generated source trees whose symlinks point at the sentinels beside the destination (relative at several depths, absolute), at '..', '../..', '.', '/', other entries of the tree and nothing; each version is restored with 4 selections (all, a subtree, two exclusion sets) x destination {absent, empty, pre-populated, pre-populated + overwrite}; before and after every restore a recursive lstat + content + ctime snapshot of outside/ and of the source must be identical; a pre-populated destination without overwrite must be refused and left identical (incl. ctime). Second part: versions stitched from a backup killed at every write point after a directory was replaced by a symlink to outside/dir (entries of the older band then lie below the link). Non-trivial = tree with >= 2 symlinks / stitched version with entries below a symlink.",
-        &["ctime comparison detects chmod/chown/utimes through a link even when values are unchanged", "hostile pre-existing content in the destination is out of scope (statement scopes hostile input to symlinks in the source)"],
+        "sandbox {outside/{file,dir/{f,g,sub/h}}, work/{src,arch,dest}}; generated source trees whose symlinks point at the sentinels beside the destination (relative at several depths, absolute), at '..', '../..', '.', '/', other entries of the tree and nothing; each version is restored with 4 selections (all, a subtree, two exclusion sets) x destination {absent, empty, pre-populated, pre-populated + overwrite}; before and after every restore a recursive lstat + content + ctime snapshot of outside/ and of the source must be identical; a pre-populated destination without overwrite must be refused and left identical (incl. ctime). Second part: successive restores into one destination: version A with links to the sentinels, version B in which every such link has become a directory (with children named like the sentinel directory's) or a file; A is restored into a fresh directory and B over it with overwrite (whole, and only a subtree below a former link), and the reverse order; outside/ must stay identical. Third part: versions stitched from a backup killed at every write point after a directory was replaced by a symlink to outside/dir (entries of the older band then lie below the link). Non-trivial = tree with >= 2 symlinks / stitched version with entries below a symlink.",
+        &["ctime comparison detects chmod/chown/utimes through a link even when values are unchanged", "links in a pre-populated destination are generated only by restoring another version of the same archive into it (the statement scopes hostile input to symlinks the source contained)"],
         None,
         needs,
     )
